@@ -451,12 +451,28 @@ fn codec(name: &str) -> (DecFn, &'static str, &'static [u8]) {
     }
 }
 
-/// every input of 0, 1, 2 bytes, with and without the EOD marker
-fn short_stream(driver: &Driver, name: &str) -> Stream {
+fn reference(name: &str, text: &[u8]) -> Option<Vec<u8>> {
+    match name {
+        "hex" => hex_decode_ref(text),
+        "a85" => a85_decode_ref(text),
+        _ => {
+            // conforming run-length data ends with the EOD byte
+            if !text.contains(&128) { return None; }
+            rl_decode_ref(text)
+        }
+    }
+}
+
+/// every input of 0, 1, 2 bytes, with and without the EOD marker; split into the inputs that are a
+/// conforming encoding of something (the property's domain) and the others (error clause: drift only)
+fn short_stream(driver: &Driver, name: &str) -> (Stream, Stream) {
     let (dec, cmd, eod) = codec(name);
     let mut st = Stream::new(&format!("c05.{}.short", name), true);
+    let mut so = Stream::new(&format!("c05.{}.short.invalid", name), false);
     st.exhaustive = true;
+    so.exhaustive = true;
     let mut b = Batch::new();
+    let mut bo = Batch::new();
     let mut inputs: Vec<Vec<u8>> = vec![vec![]];
     for a in 0..=255u8 {
         inputs.push(vec![a]);
@@ -470,14 +486,17 @@ fn short_stream(driver: &Driver, name: &str) -> Stream {
         let mut with = inp.clone();
         with.extend_from_slice(eod);
         let imp = real(|| dec(&with));
-        b.push(format!("{} {}", cmd, hex(&with)), imp, inp.len() == 2);
+        let target = if reference(name, &with).is_some() { &mut b } else { &mut bo };
+        target.push(format!("{} {}", cmd, hex(&with)), imp, inp.len() == 2);
         if inp.len() < 2 {
             let imp = real(|| dec(&inp));
-            b.push(format!("{} {}", cmd, hex(&inp)), imp, false);
+            let target = if reference(name, &inp).is_some() { &mut b } else { &mut bo };
+            target.push(format!("{} {}", cmd, hex(&inp)), imp, false);
         }
     }
     b.finish(driver, &mut st);
-    st
+    bo.finish(driver, &mut so);
+    (st, so)
 }
 
 fn conforming_text(name: &str, x: &[u8], rng: &mut Rng) -> Vec<u8> {
@@ -497,6 +516,8 @@ fn conforming_stream(driver: &Driver, seed: u64, name: &str, n: u64) -> Stream {
         st.count(&format!("len={}", match x.len() { 0 => "0", 1..=4 => "1-4", 5..=32 => "5-32", _ => ">32" }));
         let imp = real(|| dec(&text));
         b.push(format!("{} {}", cmd, hex(&text)), imp, !x.is_empty());
+        // statement side: the generated text lies in the encoder relation the theorem quantifies over
+        b.push(format!("c05.conf {} {} {}", name, hex(&x), hex(&text)), "1".into(), false);
     }
     b.finish(driver, &mut st);
     st
@@ -520,10 +541,13 @@ fn broken_stream(driver: &Driver, seed: u64, name: &str, n: u64) -> Stream {
     st
 }
 
-fn rl_headers(driver: &Driver) -> Stream {
+fn rl_headers(driver: &Driver) -> (Stream, Stream) {
     let mut st = Stream::new("c05.rl.headers", true);
+    let mut so = Stream::new("c05.rl.headers.truncated", false);
     st.exhaustive = true;
+    so.exhaustive = true;
     let mut b = Batch::new();
+    let mut bo = Batch::new();
     for h in 0..=255u8 {
         let need = if h < 128 { h as usize + 1 } else if h > 128 { 1 } else { 0 };
         for have in [need, need.saturating_sub(1), need + 1, 0] {
@@ -532,12 +556,14 @@ fn rl_headers(driver: &Driver) -> Stream {
                 d.extend((0..have).map(|i| (i * 7 + 1) as u8));
                 if have >= need { d.extend_from_slice(tail); }
                 let imp = real(|| enc::run_length_decode(&d));
-                b.push(format!("c05.rl {}", hex(&d)), imp, true);
+                let target = if reference("rl", &d).is_some() { &mut b } else { &mut bo };
+                target.push(format!("c05.rl {}", hex(&d)), imp, true);
             }
         }
     }
     b.finish(driver, &mut st);
-    st
+    bo.finish(driver, &mut so);
+    (st, so)
 }
 
 /// `filter_paeth(a, b, c)` of the real code, observed through `unfilter` (the function is private):
@@ -677,6 +703,14 @@ fn unpredict_conforming(driver: &Driver, seed: u64, n: u64) -> Stream {
         let via_lzw = rng.chance(1, 3);
         let imp = real_unpredict(&p, &pre, via_lzw);
         b.push(format!("c05.unpredict {} {} {} {} {}", p.predictor, p.colors, p.bpc, p.columns, hex(&pre)), imp, !x.is_empty() && p.predictor != 1);
+        // statement side: the harness's predictor is the specification's (Spec/Codecs.lean)
+        let g = p.geometry();
+        if p.predictor >= 10 && !x.is_empty() {
+            let tags: Vec<u8> = pre.chunks(g.stride() + 1).map(|r| r[0]).collect();
+            b.push(format!("c05.spec.png {} {} {} {}", g.bpp(), g.stride(), hex(&tags), hex(&x)), hex(&pre), false);
+        } else if p.predictor == 2 && !x.is_empty() {
+            b.push(format!("c05.spec.tiff {} {} {} {} {}", g.colors, g.bpc, g.columns, g.stride(), hex(&x)), hex(&pre), false);
+        }
     }
     b.finish(driver, &mut st);
     st
@@ -773,8 +807,10 @@ fn pval_proto(shape: &str, toks: &[Option<&str>]) -> String {
     }
 }
 
-fn pair_stream(driver: &Driver, seed: u64, n: u64) -> Stream {
+fn pair_stream(driver: &Driver, seed: u64, n: u64) -> (Stream, Stream) {
     let mut st = Stream::new("c05.pair", true);
+    let mut so = Stream::new("c05.pair.malformed", false);
+    let mut wellformed = vec![];
     let mut b = Batch::new();
     for case in 0..n {
         let mut rng = Rng::derive(seed, "c05.pair", case);
@@ -805,11 +841,13 @@ fn pair_stream(driver: &Driver, seed: u64, n: u64) -> Stream {
                 if v.is_empty() { "ok -".into() } else { format!("ok {}", v.join(",")) }
             }
         };
+        wellformed.push(nshape != "bad" && pshape != "bad" && names.iter().all(|n| n.is_some()));
         b.push(format!("c05.pair {} {}", pval_proto(nshape, &names), pval_proto(pshape, &parms)), imp, nlen > 0);
     }
     // the model pairs every filter; the implementation drops the parameters of filters that take none
     let resp = driver.ask(&b.reqs);
-    for (((rq, m), i), nt) in b.reqs.iter().zip(resp.iter()).zip(b.imps.iter()).zip(b.nontrivial.iter()) {
+    for ((((rq, m), i), nt), wf) in b.reqs.iter().zip(resp.iter()).zip(b.imps.iter()).zip(b.nontrivial.iter()).zip(wellformed.iter()) {
+        let st = if *wf { &mut st } else { &mut so };
         let canon = if let Some(rest) = m.strip_prefix("ok ") {
             if rest == "-" { m.clone() } else {
                 format!("ok {}", rest.split(',').map(|pair| { let (n, p) = pair.split_once('=').unwrap(); if n == "fl" || n == "lzw" { pair.to_string() } else { let _ = p; format!("{}=*", n) } }).collect::<Vec<_>>().join(","))
@@ -818,7 +856,7 @@ fn pair_stream(driver: &Driver, seed: u64, n: u64) -> Stream {
         st.count(&format!("model={}", class(&canon)));
         st.case(rq, &canon, i, *nt);
     }
-    st
+    (st, so)
 }
 
 // ---------------------------------------------------------------------------------------------------
@@ -1032,9 +1070,11 @@ fn exhaustive_oracle(thorough: bool) -> Oracle {
     for a in 0..=255u8 {
         for b in 0..=255u8 {
             let text = [a, b, b'>'];
-            let want = match hex_decode_ref(&text) { Some(v) => format!("ok {}", hex(&v)), None => "err".into() };
+            // a pair that no conforming encoder writes may give an error or a value, not a panic
+            let want = hex_decode_ref(&text).map(|v| format!("ok {}", hex(&v)));
             let got = real(|| enc::decode_hex(&text));
             or.cases += 1;
+            let want = want.unwrap_or_else(|| if got == "panic" { "err".into() } else { got.clone() });
             if got != want {
                 bad += 1;
                 if bad <= 3 {
@@ -1079,10 +1119,11 @@ fn exhaustive_oracle(thorough: bool) -> Oracle {
         text[5] = b'~';
         text[6] = b'>';
         let q = digits.iter().fold(0u64, |acc, d| acc * 85 + (*d - b'!') as u64);
-        let got = enc::decode_85(&text);
+        let got = match catch_unwind(AssertUnwindSafe(|| enc::decode_85(&text))) { Ok(g) => g, Err(_) => { *nbad += 1; or.fail("a85-group", &format!("ASCII85 group {:?} panics", String::from_utf8_lossy(&digits)), json!({"stream": "c05.exhaustive", "part": "a85-group", "data_hex": hex(&text)})); return; } };
         let ok = match (&got, q <= u32::MAX as u64) {
             (Ok(v), true) => v[..] == (q as u32).to_be_bytes(),
-            (Err(_), false) => true,
+            // values ≥ 2^32 are written by no conforming encoder: error or value (it cannot panic: no unwind is caught here)
+            (_, false) => true,
             _ => false,
         };
         if !ok {
@@ -1102,10 +1143,10 @@ fn exhaustive_oracle(thorough: bool) -> Oracle {
             for d1 in 0..85u8 { for d2 in 0..85u8 { for d3 in 0..85u8 { for d4 in 0..85u8 {
                 text[1] = b'!' + d1; text[2] = b'!' + d2; text[3] = b'!' + d3; text[4] = b'!' + d4;
                 let q = ((((d0 as u64 * 85 + d1 as u64) * 85 + d2 as u64) * 85 + d3 as u64) * 85) + d4 as u64;
-                let got = enc::decode_85(&text);
+                let got = match catch_unwind(AssertUnwindSafe(|| enc::decode_85(&text))) { Ok(g) => g, Err(_) => { nb += 1; if nb <= 1 { local.fail("a85-group", &format!("ASCII85 group {:?} panics", String::from_utf8_lossy(&text[..5])), json!({"stream": "c05.exhaustive", "part": "a85-group", "data_hex": hex(&text)})); } continue; } };
                 let ok = match (&got, q <= u32::MAX as u64) {
                     (Ok(v), true) => v[..] == (q as u32).to_be_bytes(),
-                    (Err(_), false) => true,
+                    (_, false) => true,
                     _ => false,
                 };
                 if !ok { nb += 1; if nb <= 1 { local.fail("a85-group", &format!("ASCII85 group {:?} (value {}) decodes to {:?}", String::from_utf8_lossy(&text[..5]), q, got.as_ref().map(|v| hex(v)).map_err(|_| "err")), json!({"stream": "c05.exhaustive", "part": "a85-group", "data_hex": hex(&text)})); } }
@@ -1175,11 +1216,15 @@ pub fn run(driver: &Driver, seed: u64, thorough: bool, replay: Option<&Value>) -
     rep.oracles.push(witness_oracle());
     rep.streams.push(nibble_stream(driver));
     for name in ["hex", "a85", "rl"] {
-        rep.streams.push(short_stream(driver, name));
+        let (a, b) = short_stream(driver, name);
+        rep.streams.push(a);
+        rep.streams.push(b);
         rep.streams.push(conforming_stream(driver, seed, name, 1500 * k));
         rep.streams.push(broken_stream(driver, seed, name, 1500 * k));
     }
-    rep.streams.push(rl_headers(driver));
+    let (a, b) = rl_headers(driver);
+    rep.streams.push(a);
+    rep.streams.push(b);
     rep.streams.push(paeth_stream(driver, seed, thorough));
     rep.streams.push(unfilter_small(driver, thorough));
     rep.streams.push(unfilter_random(driver, seed, 2000 * k, false));
@@ -1188,7 +1233,9 @@ pub fn run(driver: &Driver, seed: u64, thorough: bool, replay: Option<&Value>) -
     rep.streams.push(unpredict_params(driver, seed, 1500 * k));
     rep.streams.push(chain_conforming(driver, seed, 1500 * k));
     rep.streams.push(chain_broken(driver, seed, 1000 * k));
-    rep.streams.push(pair_stream(driver, seed, 1500 * k));
+    let (a, b) = pair_stream(driver, seed, 1500 * k);
+    rep.streams.push(a);
+    rep.streams.push(b);
     rep.oracles.push(decode_oracle(seed, 0, if thorough { 200_000 } else { 6000 }, 65536, None));
     rep.oracles.push(nopanic_oracle(seed, if thorough { 400_000 } else { 12_000 }));
     rep.oracles.push(exhaustive_oracle(thorough));
